@@ -197,6 +197,10 @@ def faults(rnd, df):
         else:
             d.loc[row, c] = d.loc[row, c] + rnd.choice([1, -1])
         out.append((f"{c} varies within a household", d))
+        if df[c].dtype.kind == "f":
+            # a value for some members and a missing value for another member is a household-level input that varies as well
+            d = df.copy(); d.loc[row, c] = float("nan")
+            out.append((f"{c} is missing (NaN) for one member of a household", d))
     # contradictory joint assessment
     sp = df.index[df["p_id_ehepartner"] >= 0]
     if len(sp):
